@@ -43,7 +43,9 @@ def gen_steps(rnd):
         k = rnd.choice(['add', 'add', 'add', 'rm', 'rm', 'start', 'stop', 'reloadconfig', 'status', 'list'])
         name = rnd.choice(POOL)
         if k == 'add':
-            steps.append(['add', name, rnd.random() < .5])
+            start = rnd.random() < .5
+            # an add that is asked to start the watcher at once, while process creation fails for every retry
+            steps.append(['add', name, start] + ([True] if start and rnd.random() < .35 else []))
         elif k == 'rm':
             steps.append(['rm', recase(rnd, name), rnd.random() < .3])
         elif k in ('start', 'stop', 'status', 'list'):
@@ -156,14 +158,18 @@ def _run(w, h, d, res):
         op = st[0]
         done.append(st)
         if op == 'add':
-            _, name, start = st
+            name, start = st[1], st[2]
             props = {'name': name, 'cmd': simhist.tag_of(name) if name else 'w_empty',
                      'options': {'graceful_timeout': 0.2}}
             if start:
                 props['start'] = True
+            if len(st) > 3 and st[3]:
+                k.spawn_fail = set(range(k.spawn_attempts + 1, k.spawn_attempts + 6))
+                res.obs['adds_whose_start_cannot_spawn'] += 1
             existed = name.lower() in ref
             rep = yield w.call('add', **props)
             yield w.settle(30)
+            k.spawn_fail = set()
             ok = isinstance(rep, dict) and rep.get('status') == 'ok'
             sig.append(('add', 'dup' if existed else ('empty' if not name else 'new'), ok))
             if ok and existed:
